@@ -16,6 +16,7 @@
        "requeue"  the shard's length after a requeue is not what was put back          (C09)
        "tick"     the coordinator saw "nothing pending" for a worker that owns a shard which has been
                   non-empty since before its previous tick                              (C19)
+       "done"     a worker answers Ok(false) while an entry queued before its request is still in one of its shards (C02)
        "pinret"   a retirement is decided (marker write) while a reader's pin on that generation is open   (C08)
        "lag"      six coordinator periods after the last call something is still queued, in a hand, or
                   waiting for retirement with no reader pinned; or the coordinator did not tick (C19)
@@ -27,18 +28,18 @@
      settled{ticks,pinned}  closed{failed}                                                                        *)
 EXTENDS Coord, Json, IOUtils
 
-VARIABLES l, flags, age, lost
+VARIABLES l, flags, age, lost, reqmark
 
 Rec == ndJsonDeserialize(IOEnv.TRACE)
 Ev  == Rec[l]
-tvars == <<vars, l, flags, age, lost>>
+tvars == <<vars, l, flags, age, lost, reqmark>>
 
 TNS == Rec[1].ns
 TNW == Rec[1].nw
 TMaxEnt == Rec[1].nent
 TNCallers == Rec[1].ncallers
 
-TInit == Init /\ l = 2 /\ flags = {} /\ age = [s \in Shards |-> 0] /\ lost = {}
+TInit == Init /\ l = 2 /\ flags = {} /\ age = [s \in Shards |-> 0] /\ lost = {} /\ reqmark = [w \in Workers |-> 1]
 
 Without(seq, S) == SelectSeq(seq, LAMBDA x : x \notin S)
 SeqSet(seq) == {seq[i] : i \in DOMAIN seq}
@@ -84,11 +85,16 @@ TRequeueDone ==
   /\ UNCHANGED <<nxt, kind, sh, q, hand, done, retq, retired, wk, ff, age>>
 
 TWReq == /\ Ev.e = "wreq" /\ wk' = [wk EXCEPT ![Ev.w].pc = "shard"] /\ flags' = {}
+         /\ reqmark' = [reqmark EXCEPT ![Ev.w] = nxt]
          /\ UNCHANGED <<nxt, kind, sh, q, hand, done, retq, retired, ff, age>>
 \* the worker has finished its pass: what is still in its hand went nowhere
 TWDone == /\ Ev.e = "wdone" /\ wk' = [wk EXCEPT ![Ev.w].pc = "recv"] /\ hand' = [hand EXCEPT ![Ev.w] = <<>>]
           /\ lost' = lost \cup SeqSet(hand[Ev.w])
-          /\ flags' = {} /\ UNCHANGED <<nxt, kind, sh, q, done, retq, retired, ff, age>>
+          \* Coord's WAfter: the answer Ok(false) ("nothing left, do not ask again") is given only by a pass that put
+          \* nothing back: no entry queued before the request is still in a shard of this worker
+          /\ flags' = IF Ev.ok = 1 /\ Ev.again = 0 /\ \E s \in Owned(Ev.w) : \E i \in DOMAIN q[s] : q[s][i] < reqmark[Ev.w]
+                      THEN {"done"} ELSE {}
+          /\ UNCHANGED <<nxt, kind, sh, q, done, retq, retired, ff, age>>
 
 \* Coord's RP: a retirement pass leaves what a reader pins in the queue - a marker write decided (`pinned` = 1: a reader's
 \* pin interval on that very generation contains the decision) is the violation
@@ -125,6 +131,7 @@ TClosed ==
 TNext ==
   /\ l <= Len(Rec) /\ l' = l + 1 /\ Keep
   /\ (Ev.e # "wdone" => lost' = lost)
+  /\ (Ev.e # "wreq" => reqmark' = reqmark)
   /\ \/ TEnq \/ TDrain \/ TPub \/ TRequeue \/ TRequeueDone \/ TWReq \/ TWDone \/ TRet \/ TTick
      \/ TFlushBegin \/ TFlushEnd \/ TFlushRet \/ TSettled \/ TClosed
 
@@ -140,6 +147,7 @@ RequeueKept == "requeue" \notin flags
 TickHonest  == "tick" \notin flags
 NoLag       == "lag" \notin flags
 RetireRespectsPins == "pinret" \notin flags
+DoneMeansDone == "done" \notin flags
 
 TraceAccepted ==
   IF TLCGet("stats").diameter = Len(Rec) THEN TRUE
